@@ -2,10 +2,13 @@
 package c06
 
 import (
+	"encoding/hex"
+	"encoding/json"
 	"fmt"
 	"math"
 	"strings"
 	"testing"
+	"unicode/utf8"
 
 	geom "github.com/twpayne/go-geom"
 	"github.com/twpayne/go-geom/encoding/wkt"
@@ -23,8 +26,35 @@ func TestMain(m *testing.M) { run.Main(m) }
 // Case is an input string; MustReject is set for single-defect injections.
 type Case struct {
 	Class      string `json:"class"`
-	Text       string `json:"text"`
+	Text       Txt    `json:"text"`
 	MustReject bool   `json:"mustReject,omitempty"`
+}
+
+// Txt is an input string that survives its JSON form whatever bytes it holds:
+// valid UTF-8 is written as it is, anything else as "hex:" + hexadecimal.
+type Txt string
+
+func (x Txt) MarshalJSON() ([]byte, error) {
+	if utf8.ValidString(string(x)) && !strings.HasPrefix(string(x), "hex:") {
+		return json.Marshal(string(x))
+	}
+	return json.Marshal("hex:" + hex.EncodeToString([]byte(x)))
+}
+
+func (x *Txt) UnmarshalJSON(b []byte) error {
+	var s string
+	if err := json.Unmarshal(b, &s); err != nil {
+		return err
+	}
+	if strings.HasPrefix(s, "hex:") {
+		raw, err := hex.DecodeString(s[4:])
+		if err != nil {
+			return err
+		}
+		s = string(raw)
+	}
+	*x = Txt(s)
+	return nil
 }
 
 // verdict parses text and checks everything C06 says about the outcome. It
@@ -140,12 +170,12 @@ func verdict(text string, bounded bool) (accepted bool, err error) {
 }
 
 func prop(c Case) error {
-	acc, err := verdict(c.Text, true)
+	acc, err := verdict(string(c.Text), true)
 	if err != nil {
-		return fmt.Errorf("%v\ninput: %q", err, clip(c.Text))
+		return fmt.Errorf("%v\ninput: %q", err, clip(string(c.Text)))
 	}
 	if c.MustReject && acc {
-		return fmt.Errorf("input with defect %q was accepted: %q", c.Class, clip(c.Text))
+		return fmt.Errorf("input with defect %q was accepted: %q", c.Class, clip(string(c.Text)))
 	}
 	return nil
 }
@@ -223,7 +253,17 @@ func genMutant(t *rapid.T) Case {
 		}
 	}
 	sep := rapid.SampledFrom([]string{" ", " ", "\n", "\t ", "  "}).Draw(t, "sep")
-	return Case{Class: "token-mutant", Text: strings.Join(toks, sep)}
+	text = strings.Join(toks, sep)
+	// a run of bytes that are (or look like) padding, longer than any window the error
+	// rendering may cut around the error position: Latin-1 spaces that a byte-wise
+	// lexer skips (0x85, 0xA0), other bytes above 0x7F, line breaks, NULs, real UTF-8
+	if rapid.IntRange(0, 2).Draw(t, "pad") == 0 {
+		unit := rapid.SampledFrom([]string{"\xa0", "\x85", "\xa0\x85", " ", "\n", "\r", "\r\n", "\t", "\x00", "\xc3\xa9", "\xe2\x80\xa8", "\x80", "\xbf", "\xff", "\xc0", "\v", "\f"}).Draw(t, "padunit")
+		run := strings.Repeat(unit, rapid.IntRange(1, 70).Draw(t, "padlen"))
+		at := rapid.SampledFrom([]int{len(text), len(text), 0, rapid.IntRange(0, len(text)).Draw(t, "padat")}).Draw(t, "padwhere")
+		text = text[:at] + run + text[at:]
+	}
+	return Case{Class: "token-mutant", Text: Txt(text)}
 }
 
 // ---- single defects that must be rejected ---------------------------------
@@ -339,7 +379,7 @@ func genDefect(t *rapid.T) Case {
 		}
 	}
 	if len(defects) == 0 {
-		return Case{Class: "valid", Text: mustWrite(g, chooser(t))}
+		return Case{Class: "valid", Text: Txt(mustWrite(g, chooser(t)))}
 	}
 	d := rapid.SampledFrom(defects).Draw(t, "defect")
 	switch d {
@@ -391,7 +431,7 @@ func genDefect(t *rapid.T) Case {
 		}
 		*c = nc[:n]
 	}
-	return Case{Class: d, Text: mustWrite(g, chooser(t)), MustReject: true}
+	return Case{Class: d, Text: Txt(mustWrite(g, chooser(t))), MustReject: true}
 }
 
 func mustWrite(g *model.G, c refwkt.Chooser) string {
@@ -433,7 +473,7 @@ func genCollectionFrames(t *rapid.T) Case {
 		sb.WriteString(")")
 	}
 	rec(depth)
-	return Case{Class: "collection-frames", Text: sb.String()}
+	return Case{Class: "collection-frames", Text: Txt(sb.String())}
 }
 
 func genCase(t *rapid.T) Case {
@@ -446,11 +486,11 @@ func genCase(t *rapid.T) Case {
 		return genCollectionFrames(t)
 	case 8:
 		g := validTree(t)
-		return Case{Class: "valid", Text: mustWrite(g, chooser(t))}
+		return Case{Class: "valid", Text: Txt(mustWrite(g, chooser(t)))}
 	default:
 		// raw strings over a WKT-flavoured alphabet
 		s := rapid.StringMatching(`[ POINTZMEYLSGCU(),.0-9eE+\-\n\t\x00\x7f-\xff]{0,60}`).Draw(t, "raw")
-		return Case{Class: "raw", Text: s}
+		return Case{Class: "raw", Text: Txt(s)}
 	}
 }
 
@@ -459,7 +499,7 @@ func classify(c Case) ([]string, bool) {
 	pastFirstClose := false
 	var perr error
 	_ = run.Safe(func() error {
-		_, perr = wkt.Unmarshal(c.Text)
+		_, perr = wkt.Unmarshal(string(c.Text))
 		acc = perr == nil
 		return nil
 	})
@@ -474,11 +514,11 @@ func classify(c Case) ([]string, bool) {
 		if i := strings.Index(msg, " at line "); i >= 0 {
 			fmt.Sscanf(msg[i:], " at line %d, pos %d", &line, &pos)
 			if line == 1 {
-				if j := strings.Index(c.Text, ")"); j >= 0 && pos > j {
+				if j := strings.Index(string(c.Text), ")"); j >= 0 && pos > j {
 					pastFirstClose = true
 				}
 			} else if line > 1 {
-				pastFirstClose = strings.Contains(c.Text, ")")
+				pastFirstClose = strings.Contains(string(c.Text), ")")
 			}
 		}
 		if pastFirstClose {
@@ -518,7 +558,7 @@ var macros = []string{
 func checkSeq(t *testing.T, text string, class string, id uint64) (acc bool, viable bool, ok bool) {
 	acc, err := verdict(text, false)
 	if err != nil {
-		c := Case{Class: class, Text: text}
+		c := Case{Class: class, Text: Txt(text)}
 		run.SaveReplay("C06", "parse", c, err.Error())
 		t.Errorf("C06/parse exhaustive: %v\ninput: %q", err, text)
 		return acc, false, false
@@ -527,7 +567,7 @@ func checkSeq(t *testing.T, text string, class string, id uint64) (acc bool, via
 		_, perr := wkt.Unmarshal(text)
 		viable = perr != nil && strings.Contains(perr.Error(), "unexpected $end")
 	}
-	ev.Default.CaseHash(id, class, acc, func() any { return Case{Class: class, Text: text} })
+	ev.Default.CaseHash(id, class, acc, func() any { return Case{Class: class, Text: Txt(text)} })
 	return acc, viable, true
 }
 
@@ -626,7 +666,7 @@ func FuzzWKT(f *testing.F) {
 		if len(s) > 1<<16 {
 			return
 		}
-		c := Case{Class: "fuzz", Text: s}
+		c := Case{Class: "fuzz", Text: Txt(s)}
 		if err := run.Safe(func() error {
 			_, err := verdict(s, false)
 			return err
